@@ -143,6 +143,8 @@ pub const CARRIERS: &[(&str, &str, &str)] = &[
     ("str.format", "int", "f\"{v_w(2)}-{V_S(1)}\".len()"),
     ("str.join", "int", "range(3).map((v_x: int)->{v_cb(v_x).to_str()}).to_array().join(\",\").len()"),
     ("big-string", "int", "(\"ab\" * 3000).len()"),
+    ("big-concat", "int", "(\"a\" * 3000 + \"b\" * 3000).len()"),
+    ("big-seq-concat", "int", "(range(400).to_array() + range(400).to_array()).to_array().len()"),
     ("big-array", "int", "range(600).to_array().len()"),
     ("big-int", "bool", "2 ** 20000 > 0"),
     ("big-error-message", "int", "if_error(cast<Optional<int>>(none()).value(\"m\" * 3000), 0 - 1)"),
